@@ -975,8 +975,17 @@ func ModifyRegister(register *object.Register, in ast.Node) (ast.Node, bool) {
 			return nil, false
 		}
 	case *ast.Builtin:
+		// quote(...) keeps the tree as written: a register inside it would print as R[0,x] and outlive the call.
+		if in.Type() == token.QUOTE {
+			return nil, false
+		}
 		// del(x) on the variable itself: evalDelete needs the identifier (and the variable has to exist to be deleted).
 		if in.Type() == token.DEL && len(in.Parameters) == 1 && in.Parameters[0] == ast.Node(register) {
+			return nil, false
+		}
+	case *ast.CallExpression:
+		// eval("x + 1") looks x up by name in the environment: the variable has to be there.
+		if id, ok := in.Function.(*ast.Identifier); ok && id.Literal() == "eval" {
 			return nil, false
 		}
 	case *ast.FunctionLiteral:
